@@ -17,6 +17,7 @@ struct Frame {
     bool has_checksum = false; uint32_t checksum = 0;
     uint32_t dict_id = 0; unsigned did_bytes = 0; bool reserved_bit = false;
     unsigned wlByte = 0;
+    size_t fcs_off = 0; unsigned fcs_bytes = 0;
     std::vector<Block> blocks;
     unsigned n_raw = 0, n_rle = 0, n_comp = 0;
 };
@@ -58,6 +59,7 @@ inline Frame walk(const uint8_t* p, size_t n, bool magicless = false) {
     f.dict_id = (uint32_t)rdle(p + o, f.did_bytes); o += f.did_bytes;
     unsigned fcsBytes = fcsFlag == 0 ? (f.single_segment ? 1 : 0) : fcsFlag == 1 ? 2 : fcsFlag == 2 ? 4 : 8;
     if (o + fcsBytes > n) return f;
+    f.fcs_off = o; f.fcs_bytes = fcsBytes;
     if (fcsBytes) { f.has_fcs = true; f.fcs = rdle(p + o, fcsBytes); if (fcsBytes == 2) f.fcs += 256; o += fcsBytes; }
     if (f.single_segment) f.window_size = f.fcs;
     f.header_size = o;
